@@ -14,8 +14,8 @@ from vlib import Check, standard_proof_phase, ddmin, VERIF, COQ
 
 PID = 'C07'
 MANIFEST = dict(
-    category='fault_enumeration',
-    text='Exhaustive fault enumeration on the real library (child processes): a scripted program of 1-3 logging threads (some finished and joined, '
+    category='proof',
+    text='Machine-checked (Coq) for the drain-on-stop clause: BackendWorker::_exit is modelled on the backend micro-step machine (exit_drain: emptiness check, populate, process while nothing else is pending; skeleton of _exit read from the source on every run and proved equal to the modelled loop) and, for every configuration, every history before the stop (any interleaving, exited threads included) and every pace of the clock, when the loop leaves no registered thread context holds a queued record or buffered event, everything committed before the stop has been processed, the drain commits nothing itself, and the last action is the flush of every active sink (C07_stop_drains_partial; partial: termination of the loop needs real time to pass the grace period and is observed, not proved). The process-level clauses (atexit, restart, signal handler, wait status, file content seen from outside) cannot be expressed in the model and are decided by exhaustive fault enumeration on the real library (child processes): a scripted program of 1-3 logging threads (some finished and joined, '
          'some alive), both clock sources, a spinning or a sleeping backend (measured backlog at the fault), 0-2 stop/start cycles, ends at every chosen '
          'statement boundary by Backend::stop()+return, exit() from main or another thread, return from main, raise() of each of SIGSEGV/SIGABRT/SIGFPE/'
          'SIGILL/SIGINT/SIGTERM, a process-directed SIGINT/SIGTERM, or a real fault (null store, abort(), integer division by zero, trap instruction). '
@@ -24,8 +24,7 @@ MANIFEST = dict(
          'returns; the handler\'s notice lines follow them; the wait status is the original signal (crash signals) or exit code 0 (SIGINT/SIGTERM, stop, '
          'exit, return); statements logged after (or during) a stop/start cycle are written too; no child hangs. The quick tier covers 6 signals x 8 '
          'points x 2 clocks plus the stop/exit/return, cycle and real-fault rows; the thorough tier every boundary of a 40-statement program. '
-         'Not covered: statements whose log call had not returned, other threads\' statements at a signal, SIGKILL and unhandled signals. The Coq half '
-         '(drain loop, restart, signal macro over the backend model) is counted when coq/theories/Props/Properties_C07.v is present.',
+         'Not covered: statements whose log call had not returned, other threads\' statements at a signal, SIGKILL and unhandled signals.',
     design='5 C07', technique='child-process fault enumeration with an out-of-process issue log + direct property monitor (Coq model theorems when present)',
     note='Trusted: the child program harness/proc.cpp (its issue log is written with write(2) right after each log call returns), the kernel\'s '
          'pipe/file semantics, waitpid status, and the Python monitor. Async-signal-safety of the handler, alarm(), atexit ordering are sampled by '
